@@ -428,8 +428,16 @@ namespace osmium {
 
         } // namespace detail
 
+        class File {
+            bool m_has_multiple_object_versions = false;
+        public:
+            bool has_multiple_object_versions() const noexcept { return m_has_multiple_object_versions; }
+        };
+
         class Reader {
             osmium::memory::Buffer m_back_buffers;
+            File m_file;
+            osmium::io::read_meta m_read_metadata = osmium::io::read_meta::yes;
             osmium::thread::Pool* m_pool = nullptr;
             enum class status { okay = 0, error = 1, closed = 2, eof = 3 } m_status = status::okay;
             detail::future_string_queue_type m_input_queue;
@@ -448,6 +456,10 @@ namespace osmium {
             }
 
         public:
+            void set_option(osmium::io::read_meta value) noexcept {
+                m_read_metadata = value;                                            // M7: also for history files
+            }
+
             Reader() :
                 m_read_thread_manager(m_input_queue),
                 m_osmdata_queue_wrapper(m_osmdata_queue) {
